@@ -724,6 +724,9 @@ def run(ck, prog, ctx):
     from props.shared import check_exact_conversion
     check_exact_conversion(ck, "GUARD", prog, "stats::f64_from_u64", "the counts k, n, K, N")
     check_exact_conversion(ck, "GUARD", prog, "stats::f64_from_usize", "the series index / factorial argument")
+    from props.shared import check_conversion_range
+    check_conversion_range(ck, "GUARD", prog, "stats::f64_from_u64", 32, "the counts N, K, n, k of an enrichment are bounded by the number of terms / records only (u32 ids)")
+    check_conversion_range(ck, "GUARD", prog, "stats::f64_from_usize", 32, "ln_factorial is called with the population size, which is bounded by the number of terms only (u32 ids)")
     from engines import check_getters
     check_getters(ck, "GETTER", prog, r"^src/stats\.rs$", floor=2)
 
